@@ -35,6 +35,14 @@ def kid (c : List (Tensor S)) (i : Nat) : R (Tensor S) := getR c i
 /-- `mul_values(a, b)` — zips, truncating to the shorter. -/
 def mulValues (a b : List S) : List S := List.zipWith (· * ·) a b
 
+/-- the slice operation of `sum`'s closure: the block's delta element repeated over the summed block -/
+def sumBackOp (n : Nat) (slices : List (List S)) : R (List S) :=
+  match slices with
+  | [s] => do
+    let v ← getR s 0
+    pure (List.replicate n v)
+  | _ => throw .modelGap
+
 /-- The closure of a node: operand values `c`, the node's own forward value `self`
     (for the closures that cache it), saved flags `t`, incoming delta `x`. -/
 def vjp (tag : OpTag S) (c : List (Tensor S)) (self : Tensor S) (t : List Bool) (x : Tensor S) :
@@ -75,11 +83,7 @@ def vjp (tag : OpTag S) (c : List (Tensor S)) (self : Tensor S) (t : List Bool) 
   | .sum _ => do
     let c0 ← kid c 0
     let n := prod (c0.dims.drop (x.dims.length - 1))
-    let r ← slicedOp [x] (fun slices => match slices with
-      | [s] => do
-        let v ← getR s 0
-        pure (List.replicate n v)
-      | _ => throw .modelGap) x.dims c0.dims 1 0
+    let r ← slicedOp [x] (sumBackOp n) x.dims c0.dims 1 0
     pure [some r]
   | .reshape => do
     let c0 ← kid c 0
